@@ -22,7 +22,10 @@ EXTRA = {
     "links": b"# T\n\n[ text ]( /url ) and ![](/img) and <http://x.y> and http://bare.example\n\n[foo]: /url\n[foo]: /dup\n",
     "html-and-code": b"# T\n\n<div>html</div>\n\n```\ncode without language\n```\n\n    indented   \n\n~~~text\nx\n~~~\n",
     "quote-setext-then-list": b"> Release notes\n> -------------\n>\n> * first change\n> * second change\n\n1. > Nested title\n   > ===\n   > - a\n",
-    "list-setext-then-quote": b"- Title in item\n  ---\n\n  > - q\n  >   r\n\n   * over\n"
+    "list-setext-then-quote": b"- Title in item\n  ---\n\n  > - q\n  >   r\n\n   * over\n",
+    "fm-title-no-h1": b"---\ntitle: Release Notes\nauthor: me\n---\n\nThis page lists the changes.\n\n## Section\n",
+    "fm-title-and-h1": b"---\ntitle: Release Notes\n---\n\n# Heading\n\n# Second\n\n### Skip\n",
+    "fm-no-title": b"---\nauthor: me\n---\n\ntext first\n\n# Heading\n"
 }
 
 
@@ -46,7 +49,9 @@ def _doc(job):
     name, data, cfgs = job
     out = []
     for cname, argv, enabled in cfgs:
-        o = runs.execute([("doc.md", data)], argv + ["scan", "doc.md"], keep_contents=False)
+        # documents named fm-...: the same comparison with the front-matter extension on (rules read the front-matter token)
+        pre = ["--set", "extensions.front-matter.enabled=$!True"] if name.startswith("extra/fm-") else []
+        o = runs.execute([("doc.md", data)], pre + argv + ["scan", "doc.md"], keep_contents=False)
         fl = obs.parse_failures(o["out"])
         out.append({"cfg": cname, "code": o["code"], "exc": o["exc"], "failures": fl, "err": o["err"][-300:]})
     return out
